@@ -226,7 +226,17 @@ namespace occa {
 
       pout.printStartIndentation();
 
-      firstDecl.print(pout, declaredType);
+      // A typedef declares the type it names only when the type loader built the
+      // typedef together with its struct/enum body (typedef struct {...} name;),
+      // the variable of such a declaration is nameless.
+      // typedef existing_t name; has to refer to existing_t by its name
+      const bool printTypeDeclaration = (
+        declaredType
+        && (!firstDecl.variable().vartype.has(typedef_)
+            || !firstDecl.variable().isNamed())
+      );
+
+      firstDecl.print(pout, printTypeDeclaration);
       for (int i = 1; i < count; ++i) {
         pout << ", ";
         declarations[i].printAsExtra(pout);
